@@ -20,15 +20,20 @@ MANIFEST = {
             "members), so real streams run on them: exhaustive + seeded API sequences and white-box calls of the static list "
             "functions are compared with the extracted model (results + walk of the real list after every call); every pthread "
             "call of abtd_stream.c is recorded (macro-renamed wrappers, state and mutex ownership sampled) and each context's "
-            "history is replayed through the extracted LTS; concurrent rank operations from ULTs and external threads are "
-            "checked for the list invariants and for a linearization admitted by the model.",
+            "history is replayed through the extracted LTS (C17_replay_sound: an accepted history is a run of the LTS); the "
+            "wrappers inject legal spurious wake-ups; a lock probe checks that the three list functions block while the harness "
+            "holds xstream_list_lock (the model's one-locked-step assumption); concurrent rank operations from ULTs and external "
+            "threads are checked for the list invariants and for a linearization admitted by the model; work submitted after "
+            "revive and after ABT_xstream_set_main_sched must complete.",
     "note": "Trusted: Coq kernel, extraction (ExtrOcamlBasic), OCaml driver (incl. the linearization search), the hand-written "
             "models of stream.c / abtd_stream.c (validated by the differential and history checks, not verified against the C "
             "text), pthread mutex/cond semantics as modelled (signal wakes a sleeper, spurious wake-ups allowed), the recording "
-            "wrappers. Modelled not verified: scheduler replacement (ABT_xstream_set_main_sched, theorem C17_replace_sched of "
-            "DESIGN) is not part of this check; one controller per context (stream.c documents join/free/revive as "
+            "wrappers. Modelled not verified: scheduler replacement is covered only observationally (return code of "
+            "ABT_xstream_set_main_sched on the own / a running / a joined stream, list untouched, later work completes); the "
+            "theorem C17_replace_sched of DESIGN belongs to the Sched LTS and is not part of this check; one controller per context (stream.c documents join/free/revive as "
             "thread-unsafe per stream); xstream_list_lock sections are single steps; creation failures (C18) not modelled; "
-            "ranks near INT_MAX are guarded explicitly (update_max overflow, see known finding).",
+            "theorems are stated for requested ranks <= INT_MAX and fewer than INT_MAX-1 calls (no C int can overflow "
+            "where the model uses Z).",
 }
 
 INT_MAX = 2147483647
@@ -97,8 +102,10 @@ def gen_a_random(rng, n, maxlen):
                 ops.append("j %d" % anyid())
             elif r < 0.80:
                 ops.append("v %d" % anyid())
-            elif r < 0.85:
+            elif r < 0.83:
                 ops.append("k %d" % anyid())
+            elif r < 0.86:
+                ops.append("m %d" % anyid())
             elif r < 0.90:
                 ops.append("g %d" % anyid())
             elif r < 0.95:
@@ -110,15 +117,18 @@ def gen_a_random(rng, n, maxlen):
 
 
 FIXED = [
+    "K",
     # revive / join / work-after-revive cycles, set_rank on self, rank reuse
     "A 4 ; c , j 1 , t 1 , v 1 , t 1 , k 1 , u 1 7 , g 1 , k 0 , u 0 3 , j 1 , k 1 , f 1 , g 1",
     "A 4 ; c , c , j 1 , j 1 , v 1 , v 1 , k 1 , j 1 , v 1 , k 1 , j 2 , v 2 , k 2 , f 2 , f 1 , n",
     "A 4 ; w 3 , w 3 , w 1 , c , f 1 , c , w 3 , s 3 3 , s 3 2 , f 3 , w 1 , n",
     "A 4 ; c , c , c , f 2 , c , f 1 , c , s 3 9 , c , f 3 , w 9 , g 8",
     "A 2 ; c , u 1 0 , u 1 1 , u 1 5 , c , u 1 1 , u 2 5 , u 2 3 , j 2 , u 2 4 , v 2 , u 2 4 , k 2",
-    # finding rank-int-max-overflow (C17_rank_int_max_refuted): newrank + 1 overflows in xstream_update_max_xstreams
-    # (the two crashing cases must not be adjacent: vlib.differential mis-attributes a crash on the first case of a
-    #  restarted harness run whose stdout is empty)
+    # main-scheduler replacement: on the caller's (primary) stream, on a running stream (refused), on a joined
+    # stream followed by revive; work submitted afterwards must complete, ranks and list untouched
+    "A 4 ; c , c , m 0 , k 0 , m 1 , j 1 , m 1 , t 1 , v 1 , k 1 , u 1 6 , m 0 , k 0 , k 2 , f 1 , m 1 , n",
+    # regression for the fixed finding rank-int-max-overflow (newrank + 1 overflowed in xstream_update_max_xstreams);
+    # kept apart: vlib.differential mis-attributes a crash on the first case of a restarted harness run
     "A 4 ; w %d" % INT_MAX,
     # the corruption that the primary-at-head invariant excludes (white box only)
     "X 4 ; N 5 , N 7 , C 1 3 , R 1",
@@ -177,10 +187,7 @@ def nontrivial(case):
 
 
 def known_match(case, impl, model):
-    # F-C17-1: rank INT_MAX makes xstream_update_max_xstreams compute INT_MAX + 1
-    if "w %d" % INT_MAX in case or "s 1 %d" % INT_MAX in case or "N %d" % INT_MAX in case:
-        if "BAD" in model and (impl.startswith("CRASH") and "overflow" in impl):
-            return "rank-int-max-overflow"
+    # no open finding (rank-int-max-overflow was fixed in /repo by a3733c8; the model follows the fixed code)
     return None
 
 
@@ -191,7 +198,7 @@ def history_stage(rep, sc, lib, cov, tier, seed):
     hexe = os.path.join(sc, "harness_c17")
     drv = os.path.join(vlib.BUILD, "drv_c17")
     rng = random.Random(seed * 7919 + 17)
-    cases = [c for c in FIXED if c.startswith("A") and str(INT_MAX) not in c]
+    cases = [c for c in FIXED if c.startswith("A")]
     cases += gen_a_random(rng, 100 if tier == "quick" else 3000, 16)
     # lifecycle-heavy sequences: join / revive / work / free in all short orders on one stream
     life = ["j 1", "v 1", "k 1", "f 1", "t 1"]
